@@ -397,13 +397,20 @@ func (d *verifC14Driver) op(op string) error {
 		for i, p := range d.pend {
 			if p.uuid == u {
 				d.pend = append(d.pend[:i], d.pend[i+1:]...)
-				// the completion closure stamps wkr.busy (and wkr.updated) with time.Now(): release
-				// the remote command and wait until it has run
+				// The completion closure returns at once when its runner is no longer in
+				// wkr.starting (nothing to wait for: it has no effect whenever it runs); otherwise
+				// its last act is to put the runner into wkr.running: release the remote command
+				// and wait for that (independent of which time stamps the closure sets).
+				uuid := verifC14UUID(u)
 				wp.mtx.Lock()
-				busy, upd := p.wkr.busy, p.wkr.updated
+				live := p.wkr.starting[uuid] == p.rr
 				wp.mtx.Unlock()
 				p.call.resp <- verifC14Resp{}
-				d.waitUntil(func() bool { return p.wkr.busy != busy || p.wkr.updated != upd })
+				if live {
+					d.waitUntil(func() bool { return p.wkr.running[uuid] == p.rr })
+				} else {
+					time.Sleep(50 * time.Microsecond)
+				}
 				break
 			}
 		}
